@@ -945,6 +945,17 @@ class Executor:
                 self.run_path()
             except _PathEnd:
                 pass
+            except Unsupported:
+                # a fork is taken when the 3 s feasibility query does not say `unsat`: on a loaded machine that lets
+                # infeasible paths through, and on those anything may look unsupported (values of the wrong type).
+                # Before giving up on the contract, ask again with a real budget whether this path exists at all.
+                s_ = z3.Solver()
+                s_.set('timeout', 120000)
+                for p_ in self.pc:
+                    s_.add(p_)
+                self.stats['feasibility_rechecks'] = self.stats.get('feasibility_rechecks', 0) + 1
+                if s_.check() != z3.unsat:
+                    raise
             for a in self.alts:
                 work.append(a)
         self.stats['paths'] = self.path_count
